@@ -126,6 +126,13 @@ def Mem.deleteLeecher (m : Mem) (ih : Bytes) (p : Peer) : Mem × Bool :=
 
 def Mem.gc (m : Mem) (cutoff : Int) : Mem := { m with shards := m.shards.map (·.gc cutoff) }
 
+/-- the cutoff the stores' own expiry loops pass at a tick: the tracker's (cached) clock, which is
+the clock memberships are stamped with, minus the validated peer lifetime -/
+def loopCutoff (clock life : Int) : Int := clock - life
+
+/-- one tick of the memory store's background expiry loop at cached clock `clock` -/
+def Mem.loopTick (m : Mem) (clock life : Int) : Mem := m.gc (loopCutoff clock life)
+
 /-- `ScrapeSwarm`: (complete, incomplete) -/
 def Mem.scrape (m : Mem) (ih : Bytes) (f : Fam) : Nat × Nat :=
   let sw := (m.shard (shardIndex m.n ih f)).swarm ih
